@@ -795,3 +795,80 @@ def replay(func, cex):   # noqa: F811
         return {"violated": bool(why), "observed": why, "what": f"program {p['name']} inputs ({a}, {b}, {bool(c)}): {why}\n{p['src']}",
                 "fingerprint": f"scope:{p['name']}:{p.get('hash') or __import__('hashlib').sha256(p['src'].encode()).hexdigest()[:10]}"}
     return _replay_cover(func, cex)
+
+
+# ---- C10 / C11 program-level: taint flows --------------------------------------------------------------------------------
+def flow_tables(i):
+    p = BATCH["programs"][i]
+    if "_flows" not in p:
+        p["_flows"] = frozenset((r["source_stmt_id"], r["sink_stmt_id"]) for r in p.get("flows", []))
+    return p["_flows"]
+
+
+def taint_violation(i, args):
+    flows = flow_tables(i)
+    p = BATCH["programs"][i]
+    it = Interp({"m": p["rows"]}, fuel=2500, inputs=list(args))
+    try:
+        it.load_module("m")
+    except GirError:
+        pass
+    except (ArithmeticError, LookupError, TypeError, ValueError, AttributeError, RecursionError):
+        pass
+    for sink_stmt, arg_origins in it.sink_events:
+        if not arg_origins:
+            continue
+        for src in arg_origins[0]:              # the rule designates argument 0
+            if (src, sink_stmt) not in flows:
+                return (f"the value produced by the source call at statement {src} reaches argument 0 of the sink call at statement "
+                        f"{sink_stmt}, but no reported flow has those two statements (reported: {sorted(flows)})")
+    return None
+
+
+def check_taint(pidx: int, a: int, b: int, c: bool) -> bool:
+    """
+    pre: _pre(pidx, a, b)
+    post: _
+    """
+    why = taint_violation(pidx, (a, b, c))
+    if why:
+        return fail("taint", prog=BATCH["programs"][pidx]["name"], pidx=pidx, args=[a, b, c], why=why)
+    return True
+
+
+def check_taint_reach(pidx: int, a: int, b: int, c: bool) -> bool:
+    """
+    pre: _pre(pidx, a, b)
+    post: _
+    """
+    flows = flow_tables(pidx)
+    return not (len(flows) >= 1 and taint_violation(pidx, (a, b, c)) is None)
+
+
+def reported_flow_problems(i):
+    """C11, concrete: every reported flow starts at a statement matching the source rule and ends at one matching the sink rule."""
+    p = BATCH["programs"][i]
+    by = {r["stmt_id"]: r for r in p["rows"]}
+    out = []
+    for (s, k) in flow_tables(i):
+        rs, rk = by.get(s), by.get(k)
+        if rs is None or rs.get("operation") != "call_stmt" or rs.get("name") != "source":
+            out.append(f"reported flow ({s},{k}): statement {s} is not a call of the configured source")
+        if rk is None or rk.get("operation") != "call_stmt" or rk.get("name") != "sink":
+            out.append(f"reported flow ({s},{k}): statement {k} is not a call of the configured sink")
+    return out
+
+
+_replay_scope = replay
+
+
+def replay(func, cex):   # noqa: F811
+    if func.startswith("check_taint"):
+        prepare({"batch": SLICE["batch"]}) if not BATCH["programs"] else None
+        i = cex["pidx"]
+        a, b, c = cex["args"]
+        p = BATCH["programs"][i]
+        why = taint_violation(i, (a, b, bool(c)))
+        return {"violated": bool(why), "observed": why, "what": f"program {p['name']} inputs ({a}, {b}, {bool(c)}): {why}\n{p['src']}",
+                "fingerprint": f"taint:{p['name']}:{p.get('hash') or __import__('hashlib').sha256(p['src'].encode()).hexdigest()[:10]}"}
+    return _replay_scope(func, cex)
